@@ -85,15 +85,17 @@ def _model(ctx, files):
     covered = set()
     jobs = []    # (kind, cfg, kwargs)
     jobs.append(("mc", "MC_Quick", dict(timeout=900)))
-    negs = ["Neg_Dedup", "Neg_WriteAhead", "Neg_LeaveOnSeen", "Neg_InGroup", "Neg_FateCheck"]
+    negs = ["Neg_Dedup", "Neg_WriteAhead", "Neg_LeaveOnSeen"]
     if ctx.thorough:
-        negs += ["Neg_Agreement", "Neg_Fairness"]
+        negs += ["Neg_InGroup", "Neg_FateCheck", "Neg_Agreement", "Neg_Fairness"]
         for c in ("MC_DupDkg", "MC_DupRelay", "MC_Stop", "MC_BadDkg", "MC_BadRelay", "MC_aabc"):
             jobs.append(("mc", c, dict(timeout=2400)))
         jobs.append(("live", "MC_Live", dict(timeout=2400)))
     for c in negs:
         jobs.append(("neg", c, dict(timeout=1200)))
-    sims = [("Sim_abc", ctx.pick(150, 6000)), ("Sim_aabc", ctx.pick(0, 2500))]
+    # Sim_async: the same world without the lockstep assumption (chain time free: late joins, requests that
+    # overtake registrations, timeouts with a quorum) -- the safety invariants must hold there too
+    sims = [("Sim_abc", ctx.pick(100, 2500)), ("Sim_aabc", ctx.pick(0, 1000)), ("Sim_async", ctx.pick(60, 2000))]
     for c, num in sims:
         if num:
             jobs.append(("sim", c, dict(timeout=2400, num=num)))
